@@ -630,6 +630,13 @@ class Builtins:
                 return Str(tuple(atoms))
             return Str((Hole(f"{s.render()}.{name}({argtxt})", "derived", meta={"of": s, "op": name,
                                                                                   "args": args}),))
+        if name == "replace" and len(args) == 2 and s.is_concrete() and isinstance(args[0], Str) and \
+                args[0].is_concrete() and isinstance(args[1], Str) and args[0].text() != "":
+            pieces = s.text().split(args[0].text())
+            out = Str.lit(pieces[0])
+            for pc in pieces[1:]:
+                out = out + args[1] + Str.lit(pc)
+            return out
         if name == "replace" and len(args) == 2:
             old, new = args
             if isinstance(old, Str) and isinstance(new, Str) and old.is_concrete() and all(
